@@ -46,6 +46,11 @@ NEEDS = {
  "C03d_arith_assign_local_scope": "an arithmetic assignment / ++ / -- evaluated inside a function on a variable that is not local to it (also: a read-only global)",
  "C04d_range_ending_with_bracket": "a bracket expression with a range whose end point is an ordinary `[` ([A-[])",
  "C05d_glob_interrupted_by_any_signal": "interactive shell, a field with a wildcard, and a trapped signal other than SIGINT arriving during the directory scan",
+ "C06d_redirected_word_as_function_name": "a one-word simple command with a redirection directly followed by `()` (invalid text: `foo >bar () { :; }`)",
+ "C07d_export_p_array_attribute": "an exported variable holding an array, listed by `export -p`",
+ "C08d_cmdsubst_interrupt_leaks_reader": "interactive shell with default SIGINT, and a command substitution whose subshell is killed by SIGINT",
+ "C09d_move_fd_internal_leaks_on_failure": "the shell opens a descriptor for itself (`. file`, tty) while no descriptor >= 10 can be allocated (`ulimit -n 10`)",
+ "C10d_errexit_skipped_without_command_name": "errexit on and a failing simple command without a command name (`a=$(false)`, `</nonexistent`)",
  "C19c_append_after_truncate": "an O_APPEND descriptor kept open, written, the file truncated through another open, then written again",
 }
 for d in sorted(glob.glob('/verif/seeded/*/')):
